@@ -63,7 +63,7 @@ Record pfacts := {
   f_pending_recheck : bool;   (* the Pending arm (l.348-351) tests `closed` under the lock that stores notify_stream_closed *)
   f_default_depth : nat;      (* PIPE_BACKPRESSURE_COUNT (l.67) *)
 }.
-Definition facts_now : pfacts := {| f_pending_recheck := false; f_default_depth := 5 |}.
+Definition facts_unrepaired : pfacts := {| f_pending_recheck := false; f_default_depth := 5 |}.
 Definition facts_repaired : pfacts := {| f_pending_recheck := true; f_default_depth := 5 |}.
 
 (* a thread that is calling a PipeWaker *)
